@@ -208,3 +208,7 @@ impl State {
         }
     }
 }
+
+#[cfg(loom_verif)]
+#[path = "/verif/hooks/arc_verif.rs"]
+pub(crate) mod verif;
